@@ -623,7 +623,9 @@ package transport
 // own queue, and an idle stream becomes active.
 //@ func (*loopyWriter).preprocessData
 //@   prop C02
-//@   requires l != nil && df != nil
+//@   nopanic
+//@   requires l != nil && df != nil && l.activeStreams != nil
+//@   requires implies(haskey(l.estdStreams, df.streamID), l.estdStreams[df.streamID] != nil && l.estdStreams[df.streamID].itl != nil)
 //@   assert at return 1 !haskey(l.estdStreams, df.streamID) && ncalls("enqueue") == 0
 //@   assert at call enqueue#1 haskey(l.estdStreams, df.streamID) && str == l.estdStreams[df.streamID] && arg0 == str.itl && arg1 == df
 //@   assert at call enqueue#2 arg1 == str && str.state == active && ncalls("enqueue") == 1
